@@ -31,6 +31,7 @@ type Reader struct {
 	version     PDFVersion
 	objCache    map[int]core.Object        // Cache for loaded objects
 	objStmCache map[int]*core.ObjectStream // Cache for object streams
+	loading     map[int]bool               // Objects currently being loaded (guards against self-reference)
 	fileSize    int64
 	pageTree    *pages.PageTree // Cached page tree
 }
@@ -50,6 +51,7 @@ func NewReader(file *os.File) (*Reader, error) {
 		file:        file,
 		objCache:    make(map[int]core.Object),
 		objStmCache: make(map[int]*core.ObjectStream),
+		loading:     make(map[int]bool),
 		fileSize:    fileInfo.Size(),
 	}
 
@@ -182,6 +184,14 @@ func (r *Reader) GetObject(objNum int) (core.Object, error) {
 	if !entry.InUse {
 		return nil, fmt.Errorf("object %d is not in use", objNum)
 	}
+
+	// Loading an object can require other objects (an indirect /Length, the
+	// containing object stream); one that needs itself would recurse forever.
+	if r.loading[objNum] {
+		return nil, fmt.Errorf("object %d refers to itself while being loaded", objNum)
+	}
+	r.loading[objNum] = true
+	defer delete(r.loading, objNum)
 
 	var obj core.Object
 	var err error
